@@ -162,6 +162,11 @@ func c11Eval(t tb, cs c11Case) {
 	}
 	col.LabelN("position:"+cs.Position, len(cs.Candidates))
 	col.LabelN("expected-rejections", rejected)
+	if len(cs.Candidates) > 0 {
+		n := len(cs.Candidates)
+		col.Sample("position:"+cs.Position, 1, map[string]any{"position": cs.Position, "candidates_in_this_run": n,
+			"some_candidates": []string{cs.Candidates[0], cs.Candidates[n/2], cs.Candidates[n-1]}, "expected_rejections": rejected, "reported": len(o.Report.Errors)})
+	}
 	if key, what := compareVerdict(a, sut.Flags{}, o); key != "" {
 		// shrink by hand: find a single candidate that still disagrees
 		if len(cs.Candidates) > 1 {
@@ -286,8 +291,8 @@ func c11RawCases() []c11Raw {
 func c11EvalRaw(t tb, rc c11Raw) {
 	col := ev.Get()
 	// the document itself must be well-formed YAML (otherwise the case says nothing about node kinds)
-	var any interface{}
-	if err := yaml.Unmarshal([]byte(rc.YAML), &any); err != nil {
+	var decoded interface{}
+	if err := yaml.Unmarshal([]byte(rc.YAML), &decoded); err != nil {
 		t.Fatalf("INFRA: raw case %s is not well-formed YAML: %v", rc.Name, err)
 	}
 	o := runInproc(Spec{Files: []File{{Name: "raw.yaml", Content: rc.YAML}}})
@@ -295,6 +300,7 @@ func c11EvalRaw(t tb, rc c11Raw) {
 	obs := observeVerdict(o)
 	col.Case(ev.HashStr("raw", rc.Name, rc.YAML), rc.Want != "accept")
 	col.Label("node-kind-or-shape:" + strings.SplitN(rc.Want, ":", 2)[0])
+	col.Sample("document:"+strings.SplitN(rc.Want, ":", 2)[0], 1, map[string]any{"name": rc.Name, "yaml": rc.YAML, "expected": rc.Want, "observed_stage": obs.Stage, "reported": o.Report.Errors})
 	fail := func(what string) {
 		violation(t, "raw:"+rc.Name, fmt.Sprintf("%s: %s; stage=%s facts=%v other=%v :: %s", rc.Name, what, obs.Stage, obs.factList(), obs.Other, oneLine(rc.YAML)), rc)
 	}
